@@ -16,7 +16,7 @@ EXTENDS Integers, Sequences, FiniteSets, TLC, Json, Exact
 
 CONSTANTS EMIT,
           Dev,      \* "none" | "sum_all_obs" | "mean_over_time" | "collapsed_particle_axis" | "stale_obs" | "one_member"
-          Dims,     \* Eval: set of <<S, P, H>> coded as decimal digits SPH;  Prop: <<S, P, H, O>> coded SPHO
+          Dims,     \* Eval: set of <<S, P, H>> coded as decimal digits SPH;  Prop: <<S, P, H, O>> coded SPHO (two members) or ESPHO (E members, E >= 1)
           NPat,
           RKinds,   \* Eval: reward kinds explored, subset of {"both", "act", "obs"}
           TrajPats  \* Eval: 0 = every trajectory tag assignment;  > 0 = that many patterned assignments (large shapes)
@@ -108,7 +108,7 @@ ObservationOnlyIgnoresActions ==
 
 (* ----------------------------------------------------------------- TsInf --- *)
 O  == dims[4]
-E  == 2            \* members
+E  == IF Len(dims) >= 5 THEN dims[5] ELSE 2      \* members (two unless the code names their number; one member: every particle uses it)
 Lat == << Zero, One, I(-1), Q(1, 2), Q(-1, 2), I(2), Q(1, 4), Q(3, 2) >>
 Pick(h) == Lat[(h % Len(Lat)) + 1]
 WLat == << Zero, Q(1, 2), Q(-1, 2), One >>
@@ -139,7 +139,8 @@ TsInf(Pm, midx, A) ==
   [s \in 1..Len(A) |-> [p \in 1..Len(midx) |->
      Roll(Pm, IF Dev = "one_member" THEN 1 ELSE midx[p] + 1, A[s], Len(A[s]))]]
 
-ChooseDimsP == /\ stage = 0 /\ \E c \in Dims : dims' = << c \div 1000, (c \div 100) % 10, (c \div 10) % 10, c % 10 >>
+ChooseDimsP == /\ stage = 0 /\ \E c \in Dims : dims' = << (c \div 1000) % 10, (c \div 100) % 10, (c \div 10) % 10, c % 10,
+                                                          IF c >= 10000 THEN c \div 10000 ELSE 2 >>
                /\ stage' = 1 /\ UNCHANGED <<acts, traj, par, rk>>
 ChooseParamsP == /\ stage = 1 /\ \E p \in 1..NPat : par' = PParams(p)
                  /\ stage' = 2 /\ UNCHANGED <<dims, acts, traj, rk>>
@@ -157,12 +158,12 @@ Propagate == /\ stage = 3
 (* standard deviation exp(1/2 SoftClamp_k(raw[i][k])) - output k's OWN raw log-variance.       *)
 (* raw values alternate between the saturating ends, so that the scale is a named constant:   *)
 (* class "lo" -> exp(Lo_k / 2), class "softhi" -> exp(SoftHi_k / 2).                            *)
-NoiseRaw(q, o) == [i \in 1..E |-> [k \in 1..o |-> IF (i + k + q) % 2 = 0 THEN -10000 ELSE 10000]]
+NoiseRaw(q, o) == [i \in 1..2 |-> [k \in 1..o |-> IF (i + k + q) % 2 = 0 THEN -10000 ELSE 10000]]
 NoiseClass(raw) == IF raw = -10000 THEN "lo" ELSE "softhi"
 ChooseNoise == /\ stage = 0
                /\ \E o \in 1..3, q \in 0..1 :
                     /\ par' = [nout |-> o, lb |-> NoiseRaw(q, o),
-                               cls |-> [i \in 1..E |-> [k \in 1..o |-> NoiseClass(NoiseRaw(q, o)[i][k])]]]
+                               cls |-> [i \in 1..2 |-> [k \in 1..o |-> NoiseClass(NoiseRaw(q, o)[i][k])]]]
                     /\ EMIT => PrintT(<<"EMIT", ToJson([noise |-> par'])>>)
                /\ stage' = 5 /\ UNCHANGED <<dims, acts, traj, rk>>
 
@@ -180,5 +181,5 @@ StepIsDelta ==
       /\ T[s][p][1] = par.obs0 /\ Len(T[s][p]) = H + 1
       /\ \A t \in 1..H : T[s][p][t + 1] = VAdd(T[s][p][t], MeanDelta(par, traj[p] + 1, T[s][p][t], acts[s][t]))
 (* vacuity guard: the two members do predict different changes *)
-MembersDifferP == DoneProp => MeanDelta(par, 1, par.obs0, One) # MeanDelta(par, 2, par.obs0, One)
+MembersDifferP == DoneProp /\ E >= 2 => MeanDelta(par, 1, par.obs0, One) # MeanDelta(par, 2, par.obs0, One)
 =============================================================================
